@@ -46,9 +46,9 @@ def with_oracle(base, oracle_fn, name=None, oracle_opts=None, every=1, **suite_o
             return f.get("finding") if f else None
 
     if name:
-        _S.name = name
-        if getattr(base, "name", None) and not getattr(base, "driver_suite", None):
+        if getattr(base, "corr", True) and getattr(base, "name", None) and not getattr(base, "driver_suite", None):
             _S.driver_suite = base.name
+        _S.name = name
     _S.__name__ = "Oracle_" + base.__name__
     return _S()
 
